@@ -217,6 +217,8 @@ impl RunLengthEncoding {
         // Read runs
         // Never reserve more than the input can hold (16 bytes per run): the count is untrusted.
         let mut runs = Vec::with_capacity(run_count.min(bytes.len() / 16));
+        // The run lengths are untrusted too: their sum must fit the element count.
+        let mut total_count = 0usize;
         for _ in 0..run_count {
             cursor.read_exact(&mut buf)?;
             let value = u64::from_le_bytes(buf);
@@ -224,10 +226,16 @@ impl RunLengthEncoding {
             cursor.read_exact(&mut buf)?;
             let length = u64::from_le_bytes(buf);
 
+            total_count = usize::try_from(length)
+                .ok()
+                .and_then(|l| total_count.checked_add(l))
+                .ok_or_else(|| {
+                    io::Error::new(io::ErrorKind::InvalidData, "run lengths overflow")
+                })?;
             runs.push(Run::new(value, length));
         }
 
-        Ok(Self::from_runs(runs))
+        Ok(Self { runs, total_count })
     }
 
     /// Gets the value at a specific index without full decompression.
